@@ -403,7 +403,7 @@ class Interp:
             return 0
         if txt=='true': return 1
         if txt=='false': return 0
-        if isinstance(t,IntT): return int(txt)&mask(t.w)
+        if isinstance(t,IntT) and re.match(r'-?\d+$',txt): return int(txt)&mask(t.w)
         if isinstance(t,FpT):
             import struct
             if txt.startswith('0x'): return int(txt,16)
